@@ -247,8 +247,11 @@ class Monitor:
             if self.only is not None and q not in self.only:
                 continue
             fi = self.repo.functions.get(q)
-            if fi is None:
+            if fi is None or "#" in q:
                 continue
+            if q.startswith(("breadthfirst.", "depthfirst.")) and not q.endswith("_df_preflight_checks"):
+                continue        # their contracts speak about existential ghosts (machine step counts): not evaluable at run time;
+                                # the explorer compares these functions with the canonical machines directly
             mod = importlib.import_module(fi.module)
             if fi.cls:
                 cls = getattr(mod, fi.cls, None)
